@@ -3,7 +3,7 @@ from checks import krill_common as kc
 
 PID = "C01"
 LEVEL = "model_checking"
-THEMES = "chain,roll,life".split(",")
+THEMES = "chain,roll,life,agg".split(",")
 NEEDED = "Settled,RoaAdd,ChildRes".split(",")
 
 RULE = (
@@ -21,7 +21,7 @@ RULE = (
 def run(tier, seed):
     return kc.run_property(
         PID, LEVEL, tier, seed, THEMES,
-        quick_num=10 if len(THEMES) > 1 else 24, thorough_num=250,
+        quick_num=8 if len(THEMES) > 1 else 24, thorough_num=250,
         assumptions=kc.COMMON_ASSUMPTIONS, rule=RULE, needed_events=NEEDED)
 
 
